@@ -193,3 +193,19 @@ func NewForeignMember(scheme string) *Member {
 	m.Cfg.AddReplica(&hotstuff.ReplicaInfo{ID: 1, PubKey: m.Cfg.PrivateKey().Public(), Metadata: m.Cfg.ConnectionMetadata()})
 	return m
 }
+
+// RawSig returns the raw bytes of a single-signer signature as the scheme produced them (Multi.ToBytes of the
+// repository frames each contained signature; this returns the contained signature itself).
+func RawSig(s hotstuff.QuorumSignature) []byte {
+	switch m := s.(type) {
+	case crypto.Multi[*crypto.ECDSASignature]:
+		if len(m) == 1 {
+			return m[0].ToBytes()
+		}
+	case crypto.Multi[*crypto.EDDSASignature]:
+		if len(m) == 1 {
+			return m[0].ToBytes()
+		}
+	}
+	return s.ToBytes()
+}
